@@ -120,6 +120,13 @@ func Build(form string, p *refcodec.Packet, from netip.Addr, c BuildCtx) ([]byte
 	}
 	to := p.Src
 	raw := p.Raw
+	// "<form>:q<N>": the same ICMP error quoting only the IP header and the first N bytes behind it (the quoted header's own
+	// length fields still describe the whole original datagram)
+	quoteCut := -1
+	if i := strings.Index(form, ":q"); i > 0 && IsICMPError(form) {
+		fmt.Sscanf(form[i+2:], "%d", &quoteCut)
+		form = form[:i]
+	}
 	switch {
 	case isTE(form) || isDU(form):
 		q := append([]byte{}, raw...)
@@ -217,6 +224,15 @@ func Build(form string, p *refcodec.Packet, from netip.Addr, c BuildCtx) ([]byte
 				// traffic class 0xb8 (DSCP EF): high nibble in byte 0, low nibble in byte 1
 				q[0] = 0x6b
 				q[1] = q[1]&0x0f | 0x80
+			}
+		}
+		if quoteCut >= 0 {
+			h := 40
+			if p.V == 4 {
+				h = p.IHL
+			}
+			if len(q) > h+quoteCut {
+				q = q[:h+quoteCut]
 			}
 		}
 		if p.V == 4 {
